@@ -309,7 +309,8 @@ def gen(tape: Tape, tier: str) -> dict:
             ops.append({"op": "call", "api": tape.choice("gen.xr", ["xarray_reduce", "xarray_reduce_ds"]), "arr": 0, "arr2": 1,
                         "lab": tape.draw("gen.lab", 2), "chunks": [base_chunks],
                         "kwargs": enc_value({"func": tape.choice("gen.xrfunc", ["sum", "mean", "var", "max", "count"]),
-                                             "expected_groups": np.arange(ngroups)})})
+                                             "expected_groups": np.arange(ngroups),
+                                             **tape.choice("gen.xrkeep", [{}, {}, {"keep_attrs": True}, {"keep_attrs": False}])})})
         elif r == 8 and len(handles) >= 2:
             k = 3 if len(handles) >= 3 and tape.chance("gen.triple2", 0.3) else 2
             ops.append({"op": "compute", "handles": tape.shuffle("gen.pick", handles)[:k]})
@@ -434,7 +435,9 @@ def do_call(arrays, labels, op, user_aggs):
                 obj = xr.DataArray(darr, dims=["x"], name="v", attrs={"units": "m"}, coords={"lab": labda, "x": np.arange(len(lab))})
             else:
                 d2 = da.from_array(arrays[op["arr2"]], chunks=chunks)
-                obj = xr.Dataset({"a": (("x",), darr, {"units": "m"}), "b": (("x",), d2)}, coords={"lab": labda}, attrs={"title": "t"})
+                # "c" has none of the reduced dimensions: it passes through xarray_reduce untouched
+                obj = xr.Dataset({"a": (("x",), darr, {"units": "m"}), "b": (("x",), d2), "c": (("y",), np.arange(3.0), {"note": "kept"})},
+                                 coords={"lab": labda}, attrs={"title": "t"})
             xo[key] = (obj, labda)
             user_aggs.setdefault("__xobj_digest__", {})[key] = _xobj_digest(obj, labda)
         obj, labda = xo[key]
@@ -443,7 +446,8 @@ def do_call(arrays, labels, op, user_aggs):
             out = (res.data, np.asarray(res["lab"].values))
         else:
             res = xarray_reduce(obj, labda, **kw)
-            out = (res["a"].data, res["b"].data, np.asarray(res["lab"].values))
+            out = (res["a"].data, res["b"].data, np.asarray(res["lab"].values), np.asarray(res["c"].values),
+                   np.array(sorted(f"{k}:{sorted(res[k].attrs.items())}" for k in res.data_vars), dtype=object))
     elif api in ("xr_rechunk_for_blockwise", "xr_rechunk_for_cohorts"):
         import xarray as xr
 
